@@ -173,6 +173,28 @@ impl Compound {
         Ok(true)
     }
 
+    /// Raise the unit to the given integer power. Returns `None` if a power
+    /// overflows.
+    pub(crate) fn pow(&self, n: i32) -> Option<Self> {
+        let mut names = BTreeMap::new();
+
+        for (name, state) in &self.names {
+            let power = state.power.checked_mul(n)?;
+
+            if power != 0 {
+                names.insert(
+                    *name,
+                    State {
+                        power,
+                        prefix: state.prefix,
+                    },
+                );
+            }
+        }
+
+        Some(Self { names })
+    }
+
     /// Calculate multiplication factors for the given multiplication.
     pub(crate) fn mul(
         &self,
